@@ -78,3 +78,95 @@ def run(ctx, R):
         from .core import atom_of
         return any(atom_of(x) == "end_of_file" for x in walk(F.hir(fn)["body"]))
     R.ob("C50:chars:end_of_file-term", eof_atom(helper), "exhausted text must read as end_of_file", F.where(helper))
+    fabricated_names(R)
+
+
+def fabricated_names(R):
+    """write_term_to_chars/3 names every variable the caller did not name (charsio.pl). The text denotes the term only if
+    the fabricated names are distinct from each other and from the caller's, which rests on two small pieces of
+    arithmetic in Prolog: (a) fabricate_var_name/3 writes N in a letter + N // 26 notation — the letter comes from N mod
+    D, the suffix from N // D with the same D, and the suffix is left out exactly when the quotient is zero; (b)
+    make_new_var_name/6 threads a counter: when a fabricated name is already taken it retries with the next number and the
+    counter handed back is the one after the name finally chosen."""
+    import os
+    import sys
+    sys.path.insert(0, os.path.dirname(os.path.dirname(os.path.abspath(__file__))))
+    from plread import plread as P
+    from .core import REPO
+    rel = "src/lib/charsio.pl"
+    text = open(os.path.join(REPO, rel)).read()
+    cl = {}
+    for t, line in P.read_clauses(text):
+        head, body = P.head_body(t)
+        f = P.functor(head)
+        if f in (("fabricate_var_name", 3), ("make_new_var_name", 6)):
+            cl.setdefault(f, []).append((line, head, body))
+    if set(cl) != {("fabricate_var_name", 3), ("make_new_var_name", 6)} or any(len(v) != 1 for v in cl.values()):
+        raise AnchorLost("charsio.pl: fabricate_var_name/3 and make_new_var_name/6 (one clause each) not found: %s" % {k: len(v) for k, v in cl.items()})
+
+    def goals(t):
+        out, st = [], [t]
+        while st:
+            g = st.pop()
+            if g[0] == "cmp" and g[1] in (",", ";", "->") and len(g[2]) == 2:
+                st.extend(reversed(g[2]))
+            else:
+                out.append(g)
+        return out
+
+    def conds(t):
+        """conditions of if-then-elses at the control level"""
+        out, st = [], [t]
+        while st:
+            g = st.pop()
+            if g[0] == "cmp" and g[1] == "->" and len(g[2]) == 2:
+                out.append(g[2][0])
+                st.append(g[2][1])
+            elif g[0] == "cmp" and g[1] in (",", ";") and len(g[2]) == 2:
+                st.extend(g[2])
+        return out
+    # (a)
+    line, head, body = cl[("fabricate_var_name", 3)][0]
+    n = head[2][2]
+    gs = goals(body)
+    mods = [(g[2][0], y[2][1]) for g in gs if P.functor(g) == ("is", 2) for y in [x for x in _sub(g[2][1]) if x[0] == "cmp" and x[1] == "mod" and len(x[2]) == 2 and x[2][0] == n]]
+    divs = [(g[2][0], g[2][1][2][1]) for g in gs if P.functor(g) == ("is", 2) and g[2][1][0] == "cmp" and g[2][1][1] == "//" and g[2][1][2][0] == n]
+    guard = None
+    for c in conds(body):
+        if c[0] == "cmp" and len(c[2]) == 2:
+            a, b = c[2]
+            if c[1] in ("=:=", "==") and divs and a == divs[0][0] and b == ("int", 0):
+                guard = ("quotient-is-zero", None)
+            elif a == n and b[0] == "int" and c[1] in ("<", "@<"):
+                guard = ("below", b[1])
+            elif a == n and b[0] == "int" and c[1] in ("=<", "@=<"):
+                guard = ("below", b[1] + 1)
+    ok = len(mods) == 1 and len(divs) == 1 and mods[0][1][0] == "int" and mods[0][1] == divs[0][1] and guard is not None and \
+        (guard[0] == "quotient-is-zero" or guard[1] == mods[0][1][1])
+    R.ob("C50:fabricated-names:letter-and-suffix-use-one-radix", ok,
+         "fabricate_var_name/3: letter from N mod %s, suffix from N // %s, suffix omitted when %s: with different radices or a guard that is not `quotient = 0` two numbers "
+         "get the same name (the 27th variable is called A again) and the text written by write_term_to_chars/3 denotes another term"
+         % ([P.show(m[1]) for m in mods], [P.show(d[1]) for d in divs], guard), "%s (line %s)" % (rel, line))
+    # (b)
+    line, head, body = cl[("make_new_var_name", 6)][0]
+    n_in, n_out = head[2][3], head[2][4]
+    its = [c for c in _sub(body) if c[0] == "cmp" and c[1] == ";" and len(c[2]) == 2 and c[2][0][0] == "cmp" and c[2][0][1] == "->"]
+    if len(its) != 1:
+        raise AnchorLost("make_new_var_name/6: one if-then-else expected (%d)" % len(its))
+    then, els = its[0][2][0][2][1], its[0][2][1]
+    rec = [g for g in goals(then) if P.functor(g) == ("make_new_var_name", 6)]
+    nxt = [g for g in goals(then) if P.functor(g) == ("is", 2) and g[2][1] == ("cmp", "+", [n_in, ("int", 1)])]
+    rec_ok = len(rec) == 1 and len(nxt) == 1 and rec[0][2][3] == nxt[0][2][0] and rec[0][2][4] == n_out
+    els_out = [g for g in goals(els) if P.functor(g) == ("is", 2) and g[2][0] == n_out and g[2][1] == ("cmp", "+", [n_in, ("int", 1)])]
+    outside = [g for g in goals(body) if P.functor(g) == ("is", 2) and g[2][0] == n_out and g not in goals(then) and g not in goals(els)]
+    R.ob("C50:fabricated-names:counter-is-the-one-after-the-name-taken", rec_ok and len(els_out) == 1 and not outside,
+         "make_new_var_name/6: when the fabricated name is taken the retry must run with N + 1 and hand ITS resulting counter back (recursive call ok: %s), otherwise "
+         "the counter is N + 1 (else branch ok: %s; counter computed outside the branches: %s): a counter that falls behind gives the next variable the name just used"
+         % (rec_ok, len(els_out) == 1, bool(outside)), "%s (line %s)" % (rel, line))
+
+
+def _sub(t):
+    yield t
+    if t[0] == "cmp":
+        for a in t[2]:
+            yield from _sub(a)
